@@ -71,7 +71,8 @@ Proof.
   let nm := eval vm_compute in (match to_str tab_element 5413 with Some s => s | None => [] end) in
   let mode := eval vm_compute in (match content_mode RT (350, 251) with Val m => m | _ => 99 end) in
   let named := eval vm_compute in (match is_named_in_version RT (350, 251) v_small with Val b => b | _ => true end) in
-  apply (canon_node RT tab_element tab_attr tab_enum accept_all no_float_fmt no_float v_small 5413 (350, 251) [] [] nm mode named).
+  apply (canon_node RT tab_element tab_attr tab_enum accept_all no_float_fmt no_float v_small 5413 (350, 251) [] [] None nm mode named).
+  - exact I.
   - repeat split; vm_compute; reflexivity.
   - split; [constructor|]. req_ok (350, 251).
   - vm_compute. reflexivity.
@@ -89,9 +90,10 @@ Proof.
   let mode := eval vm_compute in (match content_mode RT (0, 250) with Val m => m | _ => 99 end) in
   let named := eval vm_compute in (match is_named_in_version RT (0, 250) v_small with Val b => b | _ => true end) in
   let idx := eval vm_compute in (match find_sub_element RT (0, 250) 5413 v_small with Val (Some (_, i)) => i | _ => [] end) in
-  apply (root_canon true RT tab_element tab_attr tab_enum accept_all no_float_fmt no_float v_small e 1 nm _ _ mode named).
+  apply (root_canon true RT tab_element tab_attr tab_enum accept_all no_float_fmt no_float v_small e 1 nm _ _ None mode named).
   - vm_compute. reflexivity.
   - vm_compute. reflexivity.
+  - exact I.
   - repeat split; vm_compute; reflexivity.
   - split.
     + repeat constructor.
@@ -120,6 +122,6 @@ Example t_small_roundtrip :
 Proof.
   destruct (SERF v_small None t_small) as [bs| |] eqn:SF; [|vm_compute in SF; discriminate SF|vm_compute in SF; discriminate SF].
   destruct (serialize_load_roundtrip true RT tab_element tab_attr tab_enum accept_all no_float_fmt no_float v_small t_small None bs
-              t_small_canon ltac:(vm_compute; reflexivity) SF) as (st & L & W & _).
+              t_small_canon ltac:(vm_compute; reflexivity) SF) as (st & L & W & _ & _).
   exists bs, st. auto.
 Qed.
